@@ -5,6 +5,9 @@ from ..core import modules_for
 
 def run(ctx):
     q = ctx.tier == "quick"
+    if getattr(ctx, "replay", None) and "c15-wrapper-case " in open(ctx.replay).read():
+        from .. import c15wrap
+        return c15wrap.replay(ctx, ctx.replay, open(ctx.replay).read())
     if not getattr(ctx, "replay", None):
         from .. import g72x as _g72x
         _g72x.pregen(ctx)
@@ -26,3 +29,14 @@ def run(ctx):
         codecs20.search(ctx)
         from .. import querycamp     # count / position / end-of-data clauses of reads with non-audio calls in between
         querycamp.run(ctx, "C05", parts=("r",))
+        from .. import c15wrap       # (round 8) whole frames under a short transfer that ends inside a frame: all 18 wrappers
+        wprobs, wcorr = c15wrap.run(ctx)
+        for (nm, text, sc) in wprobs[:4]:
+            ctx.violation("c05-wrapper-" + nm.replace("|", "-"),
+                          "# C05 violated on the implementation's own transcript (a read / write call returns a whole number of frames, the position advances by exactly that; "
+                          "one byte short inside a frame): %s\n# case %s (file|side|caller type|i=items f=frames b=raw bytes)\nc15-wrapper-case %s\n--- script\n%s" % (text, nm, nm, sc))
+        if wcorr and not wprobs:
+            nm, k, a, b, sc = wcorr[0]
+            ctx.violation("c05-wrapper-correspondence-" + nm.replace("|", "-"),
+                          "# Sf.Faults (wholeFrames) and the implementation disagree on the wrapper matrix: %d scripts; first %s line %d\n# implementation: %s\n# model:          %s\n--- script\n%s"
+                          % (len(wcorr), nm, k, a[:300], b[:300], sc), no_input=True)
